@@ -227,7 +227,7 @@ class Case:
 
     def to_json(self):
         return dict(name=self.name, family=self.family, bs=self.bs, w=self.w, dm=self.dm, ops=self.ops,
-                    checks=[d for d, _ in self.checks], tags=self.tags)
+                    checks=[d for d, _ in self.checks], tags=self.tags, nocompare=sorted(self.nocompare))
 
 
 CORPUS = os.path.join(VERIF, "corpus")
@@ -258,7 +258,7 @@ def corpus_add(replay_path, origin):
         return None
     pid = doc["property"]
     body = dict(family=cj["family"], bs=cj["bs"], w=cj["w"], dm=cj["dm"], ops=cj["ops"],
-                tags={k: v for k, v in cj.get("tags", {}).items() if k != "corpus"},
+                tags={k: v for k, v in cj.get("tags", {}).items() if k != "corpus"}, nocompare=cj.get("nocompare", []),
                 origin=origin, kind=doc.get("kind"), detail=(doc.get("detail") or "")[:300])
     h = hashlib.sha256(json.dumps([body["family"], body["bs"], body["w"], body["dm"], body["ops"]]).encode()).hexdigest()[:12]
     d = os.path.join(CORPUS, pid)
